@@ -133,40 +133,45 @@ def send_msg_check():
     ident.PatientName = "X" * 300
     ident_b = encode(ident, True, True)
 
-    def prims():
+    def prims(mid):
         for cls, field_rq, field_rsp in ((C_ECHO, 0x0030, 0x8030), (C_FIND, 0x0020, 0x8020), (C_GET, 0x0010, 0x8010)):
             for rsp in (False, True):
                 p = cls()
                 p.AffectedSOPClassUID = "1.2.840.10008.1.1" if cls is C_ECHO else "1.2.840.10008.5.1.4.1.2.1.1"
                 if rsp:
-                    p.MessageIDBeingRespondedTo, p.Status = 5, 0xFF00 if cls is not C_ECHO else 0
+                    p.MessageIDBeingRespondedTo, p.Status = mid, 0xFF00 if cls is not C_ECHO else 0
                 else:
-                    p.MessageID = 5
+                    p.MessageID = mid
                     if cls is not C_ECHO:
                         p.Priority = 2
                 if cls is not C_ECHO and (not rsp or cls is C_FIND):
                     p.Identifier = BytesIO(ident_b)
                 yield cls.__name__, rsp, p, (field_rsp if rsp else field_rq)
         c = C_CANCEL()
-        c.MessageIDBeingRespondedTo = 5
+        c.MessageIDBeingRespondedTo = mid
         yield "C_CANCEL", True, c, 0x0FFF
     for is_requestor in (True, False):
         for rq_max, ac_max in ((16382, 64), (64, 16382), (0, 32), (32, 0)):
-            for name, rsp, prim, field in prims():
+            for name, rsp, prim, field in [x for mid in (5, 0, 65535) for x in prims(mid)]:
                 sent = []
                 assoc = types.SimpleNamespace(is_requestor=is_requestor, is_acceptor=not is_requestor,
                                               requestor=types.SimpleNamespace(maximum_length=rq_max),
                                               acceptor=types.SimpleNamespace(maximum_length=ac_max), get_handlers=lambda ev: [],
                                               dul=types.SimpleNamespace(send_pdu=sent.append))
                 d = DIMSEServiceProvider(assoc)
-                d.send_msg(prim, 3)
+                mid = prim.MessageIDBeingRespondedTo if rsp else prim.MessageID
+                try:
+                    d.send_msg(prim, 3)
+                except Exception as e:
+                    return dict(input={"primitive": name, "response": rsp, "message id": mid}, observed=f"send_msg raised {e!r}",
+                                expected=f"a message with CommandField {hex(field)} sent on context 3")
                 peer = ac_max if is_requestor else rq_max
                 pdvs = [x for pd in sent for x in pd.presentation_data_value_list]
                 cmd = b"".join(v[1:] for (_c, v) in pdvs if v[0] & 1)
                 got_field = decode(BytesIO(cmd), True, True).CommandField
                 too_long = [len(v) + 5 for (_c, v) in pdvs if peer and len(v) + 5 > peer]
                 if got_field != field or any(c != 3 for (c, _v) in pdvs) or too_long:
-                    return dict(input={"primitive": name, "response": rsp, "local side is requestor": is_requestor,
+                    return dict(input={"primitive": name, "response": rsp, "message id": mid, "local side is requestor": is_requestor,
                                        "requestor maximum length": rq_max, "acceptor maximum length": ac_max},
                                 observed={"CommandField": hex(got_field), "context ids": sorted({c for (c, _v) in pdvs}),
                                           "PDV list lengths over the peer's maximum": too_long},
